@@ -565,13 +565,17 @@ def generate_policy(args=None):
 
 def _upgrade_policies(policies, default_policies):
     old_policies_keys = list(policies.keys())
+    old_policies = dict(policies)
     for section in sorted(default_policies.keys()):
         rule_defaults = default_policies[section]
         for rule_default in rule_defaults:
             if (rule_default.deprecated_rule and
                     rule_default.deprecated_rule.name in old_policies_keys):
-                policies[rule_default.name] = policies.pop(
-                    rule_default.deprecated_rule.name)
+                # A deprecated policy may have been split into several new
+                # ones, so its old value can be needed more than once.
+                policies.pop(rule_default.deprecated_rule.name, None)
+                policies[rule_default.name] = old_policies[
+                    rule_default.deprecated_rule.name]
                 LOG.info('The name of policy %(old_name)s has been upgraded to'
                          '%(new_name)',
                          {'old_name': rule_default.deprecated_rule.name,
